@@ -1,0 +1,17 @@
+//go:build verif
+
+package limiters
+
+// Export shims for the /verif session harness (build tag verif only).
+
+// VerifSessionInUse returns the number of permits currently taken.
+func (s Semaphore) VerifSessionInUse() int { return len(s.c) }
+
+// VerifSessionEach calls f for every bucket of the set.
+func (r *BucketSet) VerifSessionEach(f func(key string, l L)) {
+	r.mLck.Lock()
+	defer r.mLck.Unlock()
+	for k, v := range r.m {
+		f(k, v.r)
+	}
+}
